@@ -29,7 +29,7 @@ def dopri5Kernel (atol rtol : Vec α n) : HKernel α n where
     let o := Gen.Dopri5.stages (f := f) (y := y) (h := h) (k1 := k1) (x := x) (last := last) (xend := xend)
     let e := Gen.Dopri5.errk4 (k1 := k1) (k3 := o.k3) (k4 := o.k4) (k5 := o.k5) (k6 := o.k6) (k2 := o.k2) (h := h)
     (⟨o.y1, o.k2, o.k3, o.k4, o.k5, o.k6, e.k4⟩, o.calls, 6)
-  err S y _h := Gen.Dopri5.errnorm (atol := atol) (rtol := rtol) (y := y) (y1 := S.y1) (k4 := S.ek4)
+  err S y _h := finiteGuard S.y1 (Gen.Dopri5.errnorm (atol := atol) (rtol := rtol) (y := y) (y1 := S.y1) (k4 := S.ek4))
   acceptA _ S _ _ _ _ := (S, #[], 0)
   hlamb S h y k1 old :=
     (Gen.Dopri5.stiff (k2 := S.k2) (k6 := S.k6) (y := y) (h := h) (k1 := k1) (k3 := S.k3) (k4 := S.ek4) (k5 := S.k5)
@@ -68,8 +68,8 @@ def dop853Kernel (atol rtol : Vec α n) : HKernel α n where
       (k3 := o.k3) (y := y) (h := h) (k4 := o.k4)
     (⟨k1, o, c⟩, o.calls, 11)
   err S y h :=
-    Gen.Dop853.errnorm (atol := atol) (rtol := rtol) (y := y) (k5 := S.c.k5) (k4 := S.c.k4) (k1 := S.k1) (k9 := S.o.k9)
-      (k3 := S.o.k3) (k6 := S.o.k6) (k7 := S.o.k7) (k8 := S.o.k8) (k10 := S.o.k10) (k2 := S.o.k2) (h := h)
+    finiteGuard S.c.k5 (Gen.Dop853.errnorm (atol := atol) (rtol := rtol) (y := y) (k5 := S.c.k5) (k4 := S.c.k4) (k1 := S.k1) (k9 := S.o.k9)
+      (k3 := S.o.k3) (k6 := S.o.k6) (k7 := S.o.k7) (k8 := S.o.k8) (k10 := S.o.k10) (k2 := S.o.k2) (h := h))
   acceptA f S x h _ _ :=
     let r := Gen.Dop853.fsal (f := f) (xph := S.o.xph) (k5 := S.c.k5)
     (⟨S, r.k4⟩, r.calls, 1)
